@@ -1,0 +1,42 @@
+//go:build verif
+
+// Machine-checked contracts for this package (guard: build tag `verif`; this file contains comments only).
+// Read by /verif/bin/govc: each `//@ unit` section is one verification unit (the functions matching `filter`,
+// verified against the contracts of the section; callees are used through their contracts only).
+
+package limits
+
+//@ unit max_bytes_reader props=C17 filter=`maxBytesReader\)\.Read$`
+//@ func (*maxBytesReader).Read
+//@   check overflow
+//@   requires l != nil && l.n >= 0
+//@   modifies maxBytesReader.n, maxBytesReader.err
+//@   ensures [inv] l.n >= 0
+//@   ensures [sticky] old(l.err) != nil ==> (n == 0 && l.n == old(l.n))
+//@   ensures [within] old(l.err) == nil ==> (0 <= n && int64(n) <= old(l.n) && n <= len(old(p)))
+//@   ensures [accounting] (old(l.err) == nil && l.n != 0) ==> l.n == old(l.n) - int64(n)
+
+//@ unit limit_handler props=C17,C12 filter=`limits\.Limit\)\.ServeHTTP$`
+//@ ghost calledNext int
+//@ extern invoke:(github.com/tmpim/casket/caskethttp/httpserver.Handler).ServeHTTP
+//@   modifies ghost:calledNext
+//@   ensures calledNext == old(calledNext) + 1
+//@ extern (github.com/tmpim/casket/caskethttp/httpserver.Path).Matches
+//@   pure
+
+//@ spec wrapLimit(body io.ReadCloser) int64
+//@ spec isWrap(body io.ReadCloser) bool
+//@ func MaxBytesReader
+//@   ensures isWrap(result) && wrapLimit(result) == n
+
+//@ define hit(k int) bool = httpserver.Path(old(r.URL.Path)).Matches(l.BodyLimits[k].Path)
+
+//@ func (Limit).ServeHTTP
+//@   requires r != nil && r.URL != nil
+//@   modifies Request.Body, ghost:calledNext
+//@   ensures [next_once] calledNext == old(calledNext) + 1
+//@   ensures [no_body_untouched] old(r.Body) == nil ==> r.Body == old(r.Body)
+//@   ensures [none_matches] (old(r.Body) != nil && forall(k, 0, len(l.BodyLimits), !hit(k))) ==> r.Body == old(r.Body)
+//@   ensures [first_match] old(r.Body) != nil ==> forall(m, 0, len(l.BodyLimits), (hit(m) && forall(j, 0, m, !hit(j))) ==> (isWrap(r.Body) && wrapLimit(r.Body) == l.BodyLimits[m].Limit))
+//@   loop 1 invariant 0 <= #i && #i <= len(l.BodyLimits) && r.Body == old(r.Body) && r.URL == old(r.URL) && r.URL.Path == old(r.URL.Path) && calledNext == old(calledNext)
+//@   loop 1 invariant forall(k, 0, #i, !hit(k))
